@@ -382,7 +382,11 @@ def accessors(rep, prog):
             arith = [s for b, i, s in f.assigns() if s["rv"]["k"] == "binop" and not f.blocks[b]["cleanup"]
                      and s["rv"]["op"].replace("WithOverflow", "") in ("Add", "Sub", "Mul", "Div", "Rem", "Shl", "Shr", "Offset")]
             if m in ("len", "is_empty"):
-                calls = [c for c in f.calls() if not f.blocks[c.bb]["cleanup"]]
+                from ..inline import inline as _inl
+                fv = _inl(prog, f)       # private storage accessors (`self.region().len()`) folded in
+                arith = [s_ for b_, i_, s_ in fv.assigns() if s_["rv"]["k"] == "binop" and not fv.blocks[b_]["cleanup"]
+                         and s_["rv"]["op"].replace("WithOverflow", "") in ("Add", "Sub", "Mul", "Div", "Rem", "Shl", "Shr", "Offset")]
+                calls = [c for c in fv.calls() if not fv.blocks[c.bb]["cleanup"]]
                 ok = not arith and all(c.name in ("len", "is_empty", "as_slice", "deref", "as_ref", "unwrap", "as_ref") or c.path.startswith("core::panicking") for c in calls)
                 rep.ob("ACCESSOR", inst, ok, "measures its storage directly (%s)" % storage_path(f)[:80], loc=f.loc())
                 continue
